@@ -718,7 +718,10 @@ def client(port, data, sched=None, total_timeout=30.0, segs=None):
             time.sleep(sched[1])
         chunk = sched[2] if sched else 262144
         pause = sched[3] if sched else 0
-        end = time.time() + total_timeout
+        # progress-based: the read ends when the server closes or nothing arrives for 10 s; the hard cap
+        # only guards against an endless trickle (an absolute deadline made slow-reader cases fail on a
+        # loaded machine: a transfer that was still progressing looked like a truncated response)
+        end = time.time() + max(300.0, total_timeout * 10)
         s.settimeout(10)
         while time.time() < end:
             try:
